@@ -1506,6 +1506,15 @@ func (en *engine) crashImages() {
 			}
 		}
 	}
+
+	// D. a rollover (or the very first open) interrupted between the creation of the next segment file and the
+	// end of its zero fill: the file is there with no bytes in it. The segment that was closed had been flushed.
+	if last := b.segs[len(b.segs)-1]; b.n == 0 || len(last.recs) >= b.h.Cap {
+		files := cloneFiles(b.cur)
+		name := fmt.Sprintf("%d%s", b.n, filepath.Ext(last.txn))
+		files[name] = []byte{}
+		en.emit(&image{desc: "crash:all-persisted;next-segment-file-created-empty=" + name, files: files, kind: "crash"})
+	}
 }
 
 // ----- corruption images
